@@ -389,4 +389,15 @@ theorem norm_crlf (r : List Char) : normCRLF ('\r' :: '\n' :: r) = '\n' :: normC
 theorem norm_no_cr (t : List Char) (h : ∀ c ∈ t, (c == '\r') = false) : normCRLF t = t := by
   have := norm_plain t [] h
   simpa [norm_nil] using this
+
+/-- whenever from_csv accepts the option, to_csv writes with exactly the delimiter from_csv splits at -/
+theorem delim_agree (opt : List UInt8) (c : Char) (h : fromCsvDelim opt = some c) : toCsvDelim opt = some c := by
+  simp only [fromCsvDelim, toCsvDelim] at h ⊢
+  by_cases hv : validDelim (delimOfOption opt) = true
+  · by_cases hc : (delimOfOption opt != '#') = true
+    · simp only [hv, hc, Bool.and_self, if_true] at h
+      simp only [hv, if_true]
+      exact h
+    · simp [hv, hc] at h
+  · simp [hv] at h
 end Proofs.C14Csv
